@@ -62,6 +62,20 @@ def magic_ops(nums, cap=70000):
                 add(t, pre + refcbor.head(2, n).hex() + '00' * n + post, 'bstr-len')
             if n >= 3: add('Header', 'a103' + refcbor.head(3, n).hex() + '612f' + '62' * (n - 2), 'text-len')
             add('ClaimsSet', 'a101' + refcbor.head(3, n).hex() + '61' * n, 'text-len'); add('Header', 'a1' + refcbor.head(3, n).hex() + '61' * n + '00', 'text-len')
+            # encode / structure side: n as the length of a field of a value built in memory, as the number of extra entries, as a label
+            E = '(hdr - (crit) - b b b (cs) (rest))'; zb = 'b' + '00' * n
+            for op in ('sigstruct CoseSign1 (ph - %s) - %s b01' % (E, zb), 'sigstruct CoseSignature (ph - %s) (ph - %s) b01 %s' % (E, E, zb), 'macstruct CoseMac0 (ph - %s) %s b01' % (E, zb),
+                       'macstruct CoseMac (ph - %s) b01 %s' % (E, zb), 'encstruct CoseEncrypt0 (ph - %s) %s' % (E, zb), 'encstruct EncRecipient (ph %s %s) b01' % (zb, E),
+                       'enc Header (hdr - (crit) - %s b b (cs) (rest))' % zb, 'enc Header (hdr - (crit) - b %s b (cs) (rest))' % zb, 'enc CoseSign1 (sign1 (ph - %s) %s %s b01)' % (E, E, zb),
+                       'enc CoseSign1 (sign1 (ph - %s) %s b01 %s)' % (E, E, zb), 'enc CoseMac0 (mac0 (ph - %s) %s b01 %s)' % (E, E, zb), 'enc CoseEncrypt0 (enc0 (ph - %s) %s %s)' % (E, E, zb),
+                       'enc CoseKey (key A1 %s - (ops) b (params))' % zb, 'enc CoseKey (key A1 b - (ops) %s (params))' % zb, 'enc ClaimsSet (cwt t%s - - - - - - (rest))' % ('61' * n),
+                       'enc ClaimsSet (cwt - - - - - - %s (rest))' % zb, 'enc Header (hdr - (crit) - b b b (cs) (rest i%d N))' % n, 'enc CoseKey (key A1 b - (ops) b (params i%d N i-%d N))' % (n + 6, n + 6),
+                       'enc ClaimsSet (cwt - - - W%d - - - (rest))' % n, 'canon lex (key A1 b - (ops) b (params i%d N i-%d N))' % (n + 6, n + 6)):
+                if op not in seen: seen.add(op); ops.append(mk(op, k='magic:built'))
+            if n <= 20000:
+                rest = ' '.join('i%d N' % (1000 + i) for i in range(n))
+                for op in ('enc Header (hdr - (crit) - b b b (cs) (rest %s))' % rest, 'enc CoseKey (key A1 b - (ops) b (params %s))' % rest, 'canon lex (key A1 b - (ops) b (params %s))' % rest):
+                    if op not in seen: seen.add(op); ops.append(mk(op.replace('(rest )', '(rest)').replace('(params )', '(params)'), k='magic:built-count'))
             if n <= 400:
                 h = 'a0'
                 for _ in range(n): h = 'a107' + '83' + '40' + h + '40'
